@@ -858,9 +858,10 @@ def rule_pass_through(ctx, rep: Report, rid="N3"):
     prog = ctx.prog
     fn = prog.func(f"{TI}/namespace.py", "instantiate_namespace")
     mi = prog.module(f"{TI}/namespace.py")
-    loops = [l for l in fn.body if isinstance(l, ast.For)]
+    loops = [l for l in fn.body if isinstance(l, ast.For) and any(
+        isinstance(i, ast.If) and "TypedefTemplateInstantiation" in unparse(i.test) for i in ast.walk(l))]
     if len(loops) != 1:
-        raise AnalysisError("instantiate_namespace: expected one top-level loop")
+        raise AnalysisError(f"instantiate_namespace: expected one top-level loop dispatching on the element kind, found {len(loops)}")
     loop = loops[0]
     p = func_params(fn)[0]
     rep.add(rid, "content iterated in place, in order", unparse(loop.iter) == f"{p}.content",
